@@ -503,10 +503,10 @@ def run(ctx):
         total = inputs.Tally()
         for t, _ in results:
             total.merge(t)
-        for sig in sorted(total.viols):
-            case, exp, obs, detail, tags, occ = total.viols[sig]
+        for key in sorted(total.viols):
+            case, exp, obs, detail, tags, occ, sig = total.viols[key]
             ctx.violation(sig, case, exp, obs, detail, tags)
-            ctx.viol[sig]['occurrences'] += occ - 1
+            ctx.add_occurrences(sig, occ - 1, tags)
         cov = ctx.coverage
         cov['evaluations'] = total.evaluations
         cov['distinct_nontrivial'] = total.nontrivial
